@@ -426,7 +426,7 @@ def translate(hist, obs, ext=False):
         if ext:
             t, out = "(P1 %s)" % t, "(R1 %s)" % out
         terms.append("(" + t + ", " + out + ", " + cwdump(d) + ")")
-        meta.append((k, len(terms) - 1))
+        meta.append((k, len(terms) - 1, t))
         prev = d
     return clist(terms), len(terms), None, meta
 
